@@ -631,6 +631,11 @@ def trace_campaign(run, pid, tier, modes=(0,), periodic=False):
 # =====================================================================================================
 # C03 / C15: task executors under the mock runtime, TaskRuntime.tla on the recorded graphs
 # =====================================================================================================
+import threading
+_scn_memo = {}
+_scn_memo_lock = threading.Lock()
+
+
 def task_replay_binary(dim, periodic, cap=64, variant="plain", runtime="omp"):
     """replay_omp.cpp built for the OpenMP executors (GOMP ABI mock) or for the Specx executors (mock Legacy/SpRuntime.hpp)."""
     defs = ["DIMV=%d" % dim, "PERIODICV=%d" % int(periodic), "CAPV=%d" % cap]
@@ -647,8 +652,16 @@ def task_replay_binary(dim, periodic, cap=64, variant="plain", runtime="omp"):
 def omp_campaign(run, name, consts, tier, variant="plain", graphs=24, max_graph_tasks=40, schedules=None, limit=None, cap=64, runtime="omp"):
     """TLC (Fmm.tla) generates the scenarios; replay_omp runs the OpenMP executors under the mock runtime on each of them with a
     list of schedules, compares with the sequential executor, evaluates Covered on the recorded graph and writes graphs for TLC."""
-    res = tlc_sharded("Fmm", consts, FMM_INVS, ["WriteSets"], 8, 1, 1500, name)
-    run.add_tlc(name, res, note="scenario generation for the task executors: Dim=%s Height=%s Mode=%s pool=%d" % (consts["Dim"], consts["Height"], consts["Mode"], len(consts["Pool"])))
+    memo_key = json.dumps({k: (sorted(v) if isinstance(v, (set, frozenset)) else v) for k, v in consts.items()}, sort_keys=True)
+    with _scn_memo_lock:
+        cached = _scn_memo.get((id(run), memo_key))
+    if cached is None:
+        res = tlc_sharded("Fmm", consts, FMM_INVS, ["WriteSets"], 8, 1, 1500, name)
+        run.add_tlc(name, res, note="scenario generation for the task executors: Dim=%s Height=%s Mode=%s pool=%d" % (consts["Dim"], consts["Height"], consts["Mode"], len(consts["Pool"])))
+        with _scn_memo_lock:
+            _scn_memo[(id(run), memo_key)] = res
+    else:
+        res = cached      # the same scenario set was already generated by TLC in this run (another runtime front end replays it)
     if res.violated:
         run.machinery_errors.append("TLC: %s violated in %s (log %s)" % (res.violated, name, res.logpath))
         return [], [], None
@@ -768,42 +781,40 @@ def omp_configs(tier):
 
 @check("C03", "model_checking")
 def check_c03(run):
-    for name, consts in omp_configs(run.tier):
-        pairs, mism, gall = omp_campaign(run, "C03-" + name, consts, run.tier)
-        report_mismatches(run, "C03", "C03-" + name, pairs, [(k, re.sub(r"-(immediate|deferred|tlc)-.*$", "", key), "%s [%s]" % (t, key)) for k, key, t in mism], C03_KINDS)
+    q = run.tier == "quick"
+    shared = [("1d-h5", fmm_constants(1, 5, POOL_1D_H5[:7], bss=(1, 2, 3, 20))), ("3d-h4", fmm_constants(3, 4, POOL_3D_H4[:5], bss=(1, 2, 20))),
+              ("tsm-1d-h5", fmm_constants(1, 5, POOL_1D_H5[:4], mode="tsm", bss=(1, 2, 20)))]
+    if not q:
+        shared += [("2d-h4", fmm_constants(2, 4, POOL_2D_H4[:7], bss=(1, 2, 3, 20), hists=("full", "stages3"))), ("tsm-2d-h4", fmm_constants(2, 4, POOL_2D_H4[:4], mode="tsm", bss=(1, 2)))]
+    jobs = [("omp-" + n, c, "omp") for n, c in omp_configs(run.tier)]
+    # the Specx and StarPU executors through API-compatible mocks of Legacy/SpRuntime.hpp and starpu.h feeding the same scheduler core
+    jobs += [("specx-" + n, c, "specx") for n, c in shared] + [("starpu-" + n, c, "starpu") for n, c in shared]
+    def one(job):
+        name, consts, runtime = job
+        pairs, mism, gall = omp_campaign(run, "C03-" + name, consts, run.tier, runtime=runtime, graphs=24 if runtime == "omp" else 8)
+        strip = lambda ms: [(k, re.sub(r"-(immediate|deferred|tlc)-.*$", "", key), "%s [%s]" % (t, key)) for k, key, t in ms]
+        out = [(pairs, strip(mism))]
         if gall:
             spath = taskruntime_on(run, "C03-" + name + "-graphs", gall, run.tier, pairs)
-            if spath:
+            if spath and runtime == "omp":
                 keys = set(l.split(" ", 1)[0] for l in open(spath))
-                sub = [(r, line) for r, line in pairs if re.sub(r"^", "", scenario_key(r, line)) in keys]
+                sub = [(r, line) for r, line in pairs if scenario_key(r, line) in keys]
                 if sub:
                     # spec -> code: run the schedules TLC found through the mock runtime
                     binp = need(task_replay_binary(consts["Dim"], consts["Periodic"]), run)
-                    rc, out, err = run_bin(binp, [], stdin_text="\n".join(l for _, l in sub) + "\n", env={"VERIF_SCHEDULES": spath}, timeout=900)
-                    m2, summary = parse_harness_output(out)
-                    if "HARNESS-ERROR" in out:
-                        raise vlib.HarnessError("replay_omp (TLC schedules): " + [l for l in out.splitlines() if "HARNESS-ERROR" in l][0])
-                    nrep = sum(int(l.split("=")[1]) for l in out.splitlines() if l.startswith("INFO tlcSchedulesReplayed="))
+                    rc, o, err = run_bin(binp, [], stdin_text="\n".join(l for _, l in sub) + "\n", env={"VERIF_SCHEDULES": spath}, timeout=900)
+                    m2, summary = parse_harness_output(o)
+                    if "HARNESS-ERROR" in o:
+                        raise vlib.HarnessError("replay_omp (TLC schedules): " + [l for l in o.splitlines() if "HARNESS-ERROR" in l][0])
+                    nrep = sum(int(l.split("=")[1]) for l in o.splitlines() if l.startswith("INFO tlcSchedulesReplayed="))
                     run.coverage["tlc_schedules_replayed"] = run.coverage.get("tlc_schedules_replayed", 0) + nrep
-                    report_mismatches(run, "C03", "C03-" + name, sub, [(k, re.sub(r"-(immediate|deferred|tlc)-.*$", "", key), "%s [%s]" % (t, key)) for k, key, t in m2], C03_KINDS)
-    # the Specx executors through an API-compatible mock of Legacy/SpRuntime.hpp feeding the same scheduler core
-    for name, consts in ([("specx-1d-h5", fmm_constants(1, 5, POOL_1D_H5[:7], bss=(1, 2, 3, 20))), ("specx-3d-h4", fmm_constants(3, 4, POOL_3D_H4[:5], bss=(1, 2, 20))),
-                          ("specx-tsm-1d-h5", fmm_constants(1, 5, POOL_1D_H5[:4], mode="tsm", bss=(1, 2, 20)))]
-                         + ([] if run.tier == "quick" else [("specx-2d-h4", fmm_constants(2, 4, POOL_2D_H4[:7], bss=(1, 2, 3, 20), hists=("full", "stages3"))),
-                                                             ("specx-tsm-2d-h4", fmm_constants(2, 4, POOL_2D_H4[:4], mode="tsm", bss=(1, 2)))])):
-        pairs, mism, gall = omp_campaign(run, "C03-" + name, consts, run.tier, runtime="specx", graphs=8)
-        report_mismatches(run, "C03", "C03-" + name, pairs, [(k, re.sub(r"-(immediate|deferred|tlc)-.*$", "", key), "%s [%s]" % (t, key)) for k, key, t in mism], C03_KINDS)
-        if gall:
-            taskruntime_on(run, "C03-" + name + "-graphs", gall, run.tier, pairs)
-    # the StarPU executors through an API-compatible mock of starpu.h (handles, codelets, variadic starpu_insert_task, worker ids)
-    for name, consts in ([("starpu-1d-h5", fmm_constants(1, 5, POOL_1D_H5[:7], bss=(1, 2, 3, 20))), ("starpu-3d-h4", fmm_constants(3, 4, POOL_3D_H4[:5], bss=(1, 2, 20))),
-                          ("starpu-tsm-1d-h5", fmm_constants(1, 5, POOL_1D_H5[:4], mode="tsm", bss=(1, 2, 20)))]
-                         + ([] if run.tier == "quick" else [("starpu-2d-h4", fmm_constants(2, 4, POOL_2D_H4[:7], bss=(1, 2, 3, 20), hists=("full", "stages3"))),
-                                                             ("starpu-tsm-2d-h4", fmm_constants(2, 4, POOL_2D_H4[:4], mode="tsm", bss=(1, 2)))])):
-        pairs, mism, gall = omp_campaign(run, "C03-" + name, consts, run.tier, runtime="starpu", graphs=8)
-        report_mismatches(run, "C03", "C03-" + name, pairs, [(k, re.sub(r"-(immediate|deferred|tlc)-.*$", "", key), "%s [%s]" % (t, key)) for k, key, t in mism], C03_KINDS)
-        if gall:
-            taskruntime_on(run, "C03-" + name + "-graphs", gall, run.tier, pairs)
+                    out.append((sub, strip(m2)))
+        return name, out
+    with ThreadPoolExecutor(max_workers=3) as ex:
+        results = list(ex.map(one, jobs))
+    for name, outs in results:
+        for pairs, mism in outs:
+            report_mismatches(run, "C03", "C03-" + name, pairs, mism, C03_KINDS)
     # code -> spec: kernel-call traces of the OpenMP executors under seeded random schedules must respect the dataflow guards of Fmm.tla
     trace_campaign(run, "C03", run.tier, modes=(0, 1))
     # lifetime of captured variables: the same schedules on the AddressSanitizer build (detect_stack_use_after_return)
